@@ -48,7 +48,7 @@ int tls13_record_decrypt(const BLOCK_CIPHER_KEY *key, const uint8_t iv[12], cons
 static FILE *devnull;
 static uint8_t *anchor; static size_t anchor_len;     /* trust anchor for chain verification (VF_ANCHOR file) */
 static SM2_KEY fixed_key; static int have_key;
-static SM9_SIGN_MASTER_KEY sm9_mpk; static SM9_ENC_KEY sm9_ek; static int have_sm9;
+static SM9_SIGN_MASTER_KEY sm9_smk; static SM9_ENC_MASTER_KEY sm9_emk; static SM9_ENC_KEY sm9_ek; static SM9_EXCH_KEY sm9_xk; static int have_sm9;
 
 /* PBKDF2 with attacker-chosen iteration counts terminates, but not within any useful budget: cap (stated in the evidence) */
 int __real_sm3_pbkdf2(const char *pass, size_t passlen, const uint8_t *salt, size_t saltlen, size_t count, size_t outlen, uint8_t *out);
@@ -71,6 +71,17 @@ static void init_once(void)
 		sm2_z256_t k; sm2_z256_from_bytes(k, d);
 		have_key = sm2_key_set_private_key(&fixed_key, k) == 1;
 	}
+#if VF_TARGET == 10
+	{
+		/* fixed SM9 master secrets: Ppubs = ks*P2, Ppube = ke*P1, and the extracted keys of "Bob" */
+		static const sm9_z256_t ks = { 0x0123456789abcdefULL, 0x1122334455667788ULL, 0x99aabbccddeeff00ULL, 0x0000130e78459d78ULL };
+		static const sm9_z256_t ke = { 0xfedcba9876543210ULL, 0x8877665544332211ULL, 0x00ffeeddccbbaa99ULL, 0x00002e5c1a3f9b0cULL };
+		sm9_z256_copy(sm9_smk.ks, ks); sm9_z256_twist_point_mul_generator(&sm9_smk.Ppubs, ks);
+		sm9_z256_copy(sm9_emk.ke, ke); sm9_z256_point_mul_generator(&sm9_emk.Ppube, ke);
+		have_sm9 = sm9_enc_master_key_extract_key(&sm9_emk, "Bob", 3, &sm9_ek) == 1
+			&& sm9_exch_master_key_extract_key(&sm9_emk, "Bob", 3, &sm9_xk) == 1;
+	}
+#endif
 }
 
 static uint8_t *dupin(const uint8_t *data, size_t size)
@@ -335,6 +346,23 @@ static void target(const uint8_t *in, size_t len)
 		free(out);
 	}
 	free(rec);
+}
+#elif VF_TARGET == 10 /* ---- SM9 verification, decryption and key exchange on attacker-supplied signatures, ciphertexts, points ---- */
+static void target(const uint8_t *in, size_t len)
+{
+	if (!have_sm9 || len == 0 || len > 1024) return;
+	{ SM9_SIGN_CTX c; sm9_verify_init(&c); sm9_verify_update(&c, (const uint8_t *)"message", 7);
+	  sm9_verify_finish(&c, in, len, &sm9_smk, "Alice", 5); }
+	{ uint8_t *out = malloc(SM9_MAX_PLAINTEXT_SIZE); size_t outlen = 0;
+	  sm9_decrypt(&sm9_ek, "Bob", 3, in, len, out, &outlen); free(out); }
+	if (len >= 65) {
+		SM9_Z256_POINT RA, RB; uint8_t sk[48];
+		if (sm9_z256_point_from_uncompressed_octets(&RA, in) == 1) {
+			sm9_exch_step_1B(&sm9_emk, "Alice", 5, "Bob", 3, &sm9_xk, &RA, &RB, sk, sizeof(sk));
+			sm9_kem_decrypt(&sm9_ek, "Bob", 3, &RA, sizeof(sk), sk);
+		}
+	}
+	if (len >= 129) { SM9_Z256_TWIST_POINT T; sm9_z256_twist_point_from_uncompressed_octets(&T, in); }
 }
 #endif
 
